@@ -22,7 +22,7 @@ ERROR_OPS = ("throw", "syntax-error", "loop-forever", "recurse-forever", "type-e
 OBSERVE = ("[typeof x === 'undefined' ? 'U' : (typeof x === 'function' ? ['fn', x()] : x), "
            "typeof y === 'undefined' ? 'U' : (typeof y === 'function' ? ['fn', y()] : y), "
            "typeof Math === 'object' ? 'M' : (typeof Math === 'function' ? ['fn', Math()] : Math), "
-           "Array.px, ({}).py, typeof Math === 'object' ? Math.pz : 'clobbered', JSON.px, Object.create({}).py, [].px, [1].concat([2]).px])"
+           "Array.px, ({}).py, typeof Math === 'object' ? Math.pz : 'clobbered', JSON.px, Object.create({}).py, [].px, [1].concat([2]).px]")
 PROBE = ("var t_ = 0; for (var i_ = 0; i_ < 3; i_++) t_ += i_; "
          "[t_, /a+/.exec('caat')[0], (function () { var c = 5; return function () { return c; }; })()(), [3, 1, 2].sort().join(''), "
          "(function () { try { throw 1; } catch (e) { return e + 1; } finally { t_ = 9; } })(), t_]")
